@@ -100,7 +100,7 @@ def build(mir, cube):
     is_err = [w.is_err(i) for i in range(N)]
     known_x = lambda *xs: [('lookup-through-redirect-cycle', Or(F.cycle_from(v) for v in xs)),
                            ('lookup-through-entry-at-redirect-source', Or(F.entry_at_source_from(v) for v in xs)),
-                           ('redirect-chain-reaches-MAX_REDIRECTS', Or(F.chain_len_ge(v, 10) for v in xs))]
+                           ('redirect-chain-reaches-MAX_REDIRECTS', Or(F.chain_len_ge(v, 11) for v in xs))]
     qs, ops = [], []
     g = cube['group']
     if g == 'resolve':
@@ -151,7 +151,7 @@ def build(mir, cube):
         allx = [z3.BitVecVal(i, 8) for i in range(N)]
         k = [('lookup-through-redirect-cycle', Or(F.Rplus[i][i] for i in range(N))),
              ('lookup-through-entry-at-redirect-source', Or(z3.And(w.mods[i]['red'][0], w.has_slot(i)) for i in range(N))),
-             ('redirect-chain-reaches-MAX_REDIRECTS', Or(F.chain_len_ge(v, 10) for v in allx))]
+             ('redirect-chain-reaches-MAX_REDIRECTS', Or(F.chain_len_ge(v, 11) for v in allx))]
         bad = []
         for i in range(N):
             fi = walk_final(w, z3.BitVecVal(i, 8))
